@@ -8,6 +8,7 @@ import (
 	"bytes"
 	"context"
 	"sort"
+	"strconv"
 	"strings"
 	"time"
 
@@ -193,7 +194,7 @@ func main() {
 	}
 	run.Emit("alltopics", joinHex(commons.Topics()))
 	for i := 0; i < run.N; i++ {
-		switch r.Intn(12) {
+		switch r.Intn(14) {
 		case 0:
 			doOp(run, []string{"subnet", hx.Hex(genStr(r))})
 		case 1:
@@ -264,6 +265,25 @@ func main() {
 				}
 			}
 			doOp(run, []string{"subfrom", hx.Hex([]byte(records.Subnets(v).String()))})
+		case 12:
+			a, b := genVec(r), genVec(r)
+			if r.Chance(15) {
+				b = append([]byte{}, a...)
+			}
+			doOp(run, []string{"shared", hx.Hex(a), hx.Hex(b), hx.Sprintf("%d", r.Pick(0, 0, 0, 1, 2, 5, 20, 128, 500, -1))})
+		case 13:
+			a, b := genVec(r), genVec(r)
+			if r.Chance(30) {
+				b = append([]byte{}, a...)
+				for k := 0; k < r.Intn(4) && len(b) > 0; k++ {
+					b[r.Intn(len(b))] ^= 1
+				}
+			}
+			if r.Chance(50) {
+				doOp(run, []string{"diff", hx.Hex(a), hx.Hex(b)})
+			} else {
+				doOp(run, []string{"active", hx.Hex(a)})
+			}
 		}
 	}
 }
@@ -496,5 +516,107 @@ func doOp(run *hx.Run, w []string) {
 		}
 	case "alltopics":
 		run.Emit(line, joinHex(commons.Topics()))
+	case "shared":
+		a, b := unhex(w[1]), unhex(w[2])
+		m, _ := strconv.Atoi(w[3])
+		got := records.SharedSubnets(a, b, m)
+		// oracle (independent of the model): strictly increasing indices inside both vectors, set on both sides;
+		// complete when no limit can have been hit
+		prev := -1
+		for _, s := range got {
+			if s <= prev || s >= len(a) || s >= len(b) || a[s] == 0 || b[s] == 0 {
+				run.Violate("C18/shared-subnets-unsound", hx.Sprintf("SharedSubnets(%x,%x,%d) lists %d", a, b, m, s), line)
+				break
+			}
+			prev = s
+		}
+		want := 0
+		for i := range a {
+			if i < len(b) && a[i] != 0 && b[i] != 0 {
+				want++
+			}
+		}
+		if (m <= 0 || m >= want) && len(got) != want {
+			run.Violate("C18/shared-subnets-incomplete", hx.Sprintf("SharedSubnets(%x,%x,%d) lists %d of %d shared subnets", a, b, m, len(got), want), line)
+		}
+		if m > 0 && m < want && len(got) != m {
+			run.Violate("C18/shared-subnets-limit", hx.Sprintf("SharedSubnets(%x,%x,%d) lists %d entries", a, b, m, len(got)), line)
+		}
+		strs := make([]string, len(got))
+		for i, s := range got {
+			strs[i] = hx.Sprintf("%d", s)
+		}
+		run.Seen(hx.Sprintf("shared:%d:%d:%d:%v", lenClass(len(a)), lenClass(len(b)), sign(m), len(got) == want))
+		run.Emit(line, "["+strings.Join(strs, ",")+"]")
+	case "diff":
+		a, b := unhex(w[1]), unhex(w[2])
+		d := records.DiffSubnets(a, b)
+		// oracle: patching a with the diff (and cutting to len(b)) gives b; no entry repeats an unchanged value
+		patched := make([]byte, len(b))
+		copy(patched, a)
+		keys := make([]int, 0, len(d))
+		for k, v := range d {
+			keys = append(keys, k)
+			if k < 0 || k >= len(b) {
+				run.Violate("C18/diff-subnets-out-of-range", hx.Sprintf("DiffSubnets(%x,%x) has key %d", a, b, k), line)
+				continue
+			}
+			if k < len(a) && a[k] == v {
+				run.Violate("C18/diff-subnets-unchanged-entry", hx.Sprintf("DiffSubnets(%x,%x) lists unchanged subnet %d", a, b, k), line)
+			}
+			patched[k] = v
+		}
+		if !bytes.Equal(patched, b) {
+			run.Violate("C18/diff-subnets-does-not-reproduce", hx.Sprintf("a=%x patched with DiffSubnets(a,b) gives %x, b=%x", a, patched, b), line)
+		}
+		sort.Ints(keys)
+		strs := make([]string, len(keys))
+		for i, k := range keys {
+			strs[i] = hx.Sprintf("%d:%d", k, d[k])
+		}
+		run.Seen(hx.Sprintf("diff:%d:%d:%d", lenClass(len(a)), lenClass(len(b)), lenClass(len(d))))
+		run.Emit(line, "["+strings.Join(strs, ",")+"]")
+	case "active":
+		v := unhex(w[1])
+		run.Seen(hx.Sprintf("active:%d", lenClass(len(v))))
+		run.Emit(line, hx.Sprintf("%d", records.Subnets(v).Active()))
 	}
 }
+
+func lenClass(n int) int {
+	switch {
+	case n == 0:
+		return 0
+	case n < 128:
+		return 1
+	case n == 128:
+		return 2
+	}
+	return 3
+}
+
+func sign(n int) int {
+	switch {
+	case n < 0:
+		return -1
+	case n == 0:
+		return 0
+	}
+	return 1
+}
+
+func genVec(r *hx.Rng) []byte {
+	n := r.Pick(128, 128, 128, 128, 0, 1, 64, 127, 129, 200)
+	v := make([]byte, n)
+	dens := r.Pick(0, 10, 40, 40, 100)
+	for j := range v {
+		if r.Chance(dens) {
+			v[j] = 1
+		}
+		if r.Chance(3) {
+			v[j] = byte(r.Intn(256))
+		}
+	}
+	return v
+}
+
